@@ -1217,7 +1217,14 @@ func (a *agg) freshPhase(refdir string, ctl bool) {
 					c.Outcome("fresh:differs", 1)
 					what := fmt.Sprintf("%s generated in a fresh process (GOMAXPROCS=%d, map order %s) differs from the reference process: %s", g.Name, j.gmp,
 						map[string]string{"ctl": "controlled, offset 0", "rand": "random as in the unpatched runtime"}[j.mode], r.Diff)
-					c.Violate("fresh-"+j.mode+":"+g.Name+":"+r.Diff.File, what, replayCase{Kind: "fresh", Grammar: g.Name, Gmp: j.gmp, Mode: j.mode})
+					// A fresh process with the real random map order that disagrees with the reference while the
+					// offset-0 runs agree can only be a map-order dependence: same key family as the enumeration,
+					// so that one finding has one key however it was first seen.
+					key := "fresh:" + g.Name + ":" + r.Diff.File
+					if j.mode == "rand" {
+						key = "maporder:" + g.Name + ":" + r.Diff.File
+					}
+					c.Violate(key, what, replayCase{Kind: "fresh", Grammar: g.Name, Gmp: j.gmp, Mode: j.mode})
 				} else {
 					c.Outcome("fresh:identical", 1)
 				}
